@@ -1,5 +1,6 @@
 use crate::{Failure, Rng};
 use temporal_rs::{Calendar, TimeZone, ZonedDateTime};
+use temporal_rs::options::{DifferenceSettings, RoundingMode, Unit, RoundingIncrement};
 use temporal_rs::tzdb::FsTzdbProvider;
 use std::panic::catch_unwind;
 
@@ -31,6 +32,18 @@ pub fn search(rng: &mut Rng, budget: u64, fails: &mut Vec<Failure>) {
             cmp!("day_of_year", z.day_of_year(), z.day_of_year_with_provider(&provider));
             cmp!("days_in_month", z.days_in_month(), z.days_in_month_with_provider(&provider));
             cmp!("hours_in_day", z.hours_in_day(), z.hours_in_day_with_provider(&provider));
+            // difference operations: every largest unit, directed rounding modes, both directions
+            let ns2 = ns + rng.range(-40_000_000_000_000_000, 40_000_000_000_000_000);
+            if let Ok(z2) = ZonedDateTime::try_new(ns2, Calendar::default(), z.timezone().clone()) {
+                for lu in [Unit::Year, Unit::Month, Unit::Week, Unit::Day, Unit::Hour] {
+                    for (su, mode) in [(None, None), (Some(Unit::Hour), Some(RoundingMode::Ceil)), (Some(Unit::Hour), Some(RoundingMode::Floor)), (Some(Unit::Minute), Some(RoundingMode::HalfCeil))] {
+                        let mut st = DifferenceSettings::default(); st.largest_unit = Some(lu); st.smallest_unit = su; st.rounding_mode = mode; st.increment = RoundingIncrement::try_new(1).ok();
+                        let show = |r: temporal_rs::TemporalResult<temporal_rs::Duration>| r.map(|d| d.to_string());
+                        cmp!("until", show(z.until(&z2, st)), show(z.until_with_provider(&z2, st, &provider)));
+                        cmp!("since", show(z.since(&z2, st)), show(z.since_with_provider(&z2, st, &provider)));
+                    }
+                }
+            }
             if fails.len() >= 5 { return; }
         }
     }
